@@ -388,31 +388,4 @@ def Stmt.wellScoped : List Nat → Stmt → Bool
   | _, .brk => true
   | _, .cont => true
 
-def XExpr.isVar {α : Type} : XExpr α → Bool
-  | .var _ => true
-  | _ => false
-
-/-- the statement declares `x` at its own level (not inside a nested block) -/
-def Stmt.topDeclares (x : Nat) : Stmt → Bool
-  | .seq a b => a.topDeclares x || b.topDeclares x
-  | .set true y _ => y == x
-  | .setFn true y _ _ _ => y == x
-  | .setCall true y _ _ => y == x
-  | _ => false
-
-/-- the domain of the correctness theorem, two exclusions (both decidable, both with a witness in Props/C01.lean):
-    * no `range` bound is a bare variable — every bound is a literal or an operator expression, whose value is a
-      copy by construction (F51, `range_bound_alias_witness`);
-    * no loop body declares, at its top level, a variable with the name of the loop variable — `for i := …
-      { i := … }` (F52, `loopvar_redeclared_witness`) -/
-def Stmt.inDom : Stmt → Bool
-  | .seq a b => a.inDom && b.inDom
-  | .setFn _ _ _ body _ => body.inDom
-  | .block s => s.inDom
-  | .ite _ t e => t.inDom && e.inDom
-  | .while _ body => body.inDom
-  | .forc x _ _ _ _ body => !body.topDeclares x && body.inDom
-  | .rng x n body => !n.isVar && !body.topDeclares x && body.inDom
-  | _ => true
-
 end YaegiVerif.Clos
